@@ -117,12 +117,14 @@ Definition check_step (cs : list step_case) : list (Z * option (addr * Z * Z * l
 Definition run_case :=
   (list instr * list cellv * (addr * Z * Z) * nat * list (addr * Z * Z) * list cellv)%type.
 
-(* the program the harness loaded at (0, 0) is the bytecode [prog_words] of C16/Layout.v: the
-   implementation's encodings, concatenated, stored as field elements ([mem_has], executable) *)
+(* the program the harness loaded at (0, 0) -- the bytecode returned by the toolchain's own
+   CairoProgram::assemble for the instruction list -- is the bytecode [prog_words] of C16/Layout.v,
+   stored as field elements ([mem_has], executable), and nothing follows it *)
 Definition prog_loaded_b (is : list instr) (m : list cellv) : bool :=
   match prog_words is with
   | Some ws => forallb (fun '(k, w) => opt_eqb value_eqb (lookup m (0, k)) (Some (VInt (fnorm w))))
                        (indexed 0 ws)
+               && match lookup m (0, Z.of_nat (length ws)) with None => true | Some _ => false end
   | None => false
   end.
 
